@@ -135,6 +135,47 @@ def nested_part_scen(rng):
     return {"meta": meta, "sql": "SELECT id, %s(v) OVER (PARTITION BY dev.kk) AS a0 FROM stream" % fn, "rows": rows}
 
 
+def twoover_scen(rng, quick):
+    """WHERE with the SAME call text under two different OVER clauses: each occurrence keeps a state of its own, partitioned its own way"""
+    fn = rng.choice(["acc_sum", "acc_count", "acc_max", "acc_min", "acc_sum"])
+    first_part = rng.choice(["k", ""])
+    c1 = {"al": "a0", "fn": fn, "col": "v", "off": 1, "hasdef": 0, "def": {"k": "null"}, "ign": 1, "start": 0, "reset": 0, "show": 0, "part": first_part}
+    c2 = dict(c1, al="a1", part="" if first_part else "k")
+    wop = rng.choice(["<", ">", "<", ">", ">=", "<="])   # not "=": NULL = NULL is the recorded deviation NullEqualsNullIsTrue (C06)
+    ov = lambda c: " OVER (PARTITION BY k)" if c["part"] else ""
+    txt = "SELECT id, v FROM stream WHERE %s(v)%s %s %s(v)%s" % (fn, ov(c1), wop, fn, ov(c2))
+    rows = []
+    for i in range(rng.choice([5, 7, 9] if quick else [8, 10, 12])):
+        row = {"id": i + 1, "k": rng.choice(["p", "q", "r"][:rng.choice([2, 3])]), "w": 1}
+        x = rng.choice([None, MISSING, 1, 1, 2, 3, -1, 0])
+        if x != MISSING: row["v"] = x
+        rows.append(row)
+    meta = {"fam": "analytic", "wraps": [], "calls": [c1, c2], "part": "", "conds": [], "wmode": "analytic2", "wop": wop, "wlit": 0}
+    return {"meta": meta, "sql": txt, "rows": rows}
+
+
+COMPOSITE = [[1, 2], [1, 2], [2, 1], [1], {"a": 1}, {"a": 1}, {"a": 2}, {"a": 1, "b": "x"}, "s", 1, None, MISSING]
+
+
+def composite_scen(rng, quick):
+    """had_changed / changed_col / lag / latest over a column that carries lists and objects (decoded JSON): equal contents = unchanged"""
+    calls = []
+    for i in range(rng.choice([1, 2])):
+        fn = rng.choice(["had_changed", "changed_col", "had_changed", "changed_col", "lag", "latest"])
+        c = {"al": "a%d" % i, "fn": fn, "col": "v", "off": 1, "hasdef": 0, "def": {"k": "null"}, "ign": rng.choice([0, 1]) if fn in ("had_changed", "changed_col") else 1, "start": 0, "reset": 0, "show": 1}
+        calls.append(c)
+    part = rng.choice(["", "k", "k"])
+    over = " OVER (PARTITION BY k)" if part else ""
+    rows = []
+    for i in range(rng.choice([5, 7, 9] if quick else [8, 10, 12])):
+        row = {"id": i + 1, "k": rng.choice(["p", "q"]), "w": 1}
+        x = rng.choice(COMPOSITE)
+        if x != MISSING: row["v"] = x
+        rows.append(row)
+    meta = {"fam": "analytic", "wraps": [], "calls": calls, "part": part, "conds": [], "wmode": "plain", "wop": ">", "wlit": 0}
+    return {"meta": meta, "sql": "SELECT id, " + ", ".join("%s%s AS %s" % (call_sql(c, []), over, c["al"]) for c in calls) + " FROM stream", "rows": rows}
+
+
 def run(tier):
     res = vlib.Result("C14", tier)
     rng = random.Random(vlib.seed())
@@ -151,11 +192,18 @@ def run(tier):
     for i in range(80 if quick else 1500):
         sc = nested_part_scen(rng)
         scen.append(sc); scen.append(dict(sc, mode="sync"))
+    for i in range(150 if quick else 3000):
+        sc = twoover_scen(rng, quick)
+        scen.append(sc); scen.append(dict(sc, mode="sync"))
+    for i in range(200 if quick else 4000):
+        sc = composite_scen(rng, quick)
+        scen.append(sc); scen.append(dict(sc, mode="sync"))
     seqfam.run_scenarios(res, scen, "TraceAnalytic", tag="analytic", relayout_p=0.3, retype_p=0.3, rename_p=0.3)
     res.cov["exhaustive"] = False
     res.cov["distinct_nontrivial"] = len({s["sql"] + json.dumps(s["rows"], sort_keys=True) for s in scen})
     res.cov["rule"] = ("seeded queries with 1-3 analytic calls (lag with offset/default/ignoreNull, latest, had_changed, changed_col, acc_sum/count/avg/min/max with start and reset conditions), "
                        "optional OVER (PARTITION BY k [WHEN cond]), optional analytic-free WHERE or a WHERE that itself calls an analytic function; 4-12 rows over 1-3 interleaved partitions with NULL / missing / int / float values; "
+                       "a WHERE that compares the same call text under two different OVER clauses (own state and partitioning per occurrence); had_changed / changed_col / lag / latest over list- and object-valued columns; "
                        "every scenario through Emit and through EmitSync; distinct = distinct (SQL, rows)")
     res.assumptions = ASSUME
     cfg = "SPECIFICATION Spec\nINVARIANTS Laws\nCHECK_DEADLOCK FALSE\n"
